@@ -268,6 +268,8 @@ class SSH_Socket(ReadBuf, WriteBuf):
                 header.write(padding)
                 payload_length = packet_length
                 check_size = padding_length + payload_length
+                if payload_length < 5:  # An SSH1 packet holds at least the type byte and the CRC.
+                    return -1, b'invalid ssh packet (length)'
             else:
                 self.ensure_read(1)
                 padding_length = self.read_byte()
